@@ -69,21 +69,30 @@ class ColumnQuery(Query):
             return NullMatcher()
 
         creader = reader.column_reader(fieldname)
-        return ColumnMatcher(creader, comp)
+        is_deleted = reader.is_deleted if reader.has_deletions() else None
+        return ColumnMatcher(creader, comp, is_deleted)
 
 
 class ColumnMatcher(ConstantScoreMatcher):
-    def __init__(self, creader, condition):
+    def __init__(self, creader, condition, is_deleted=None):
+        ConstantScoreMatcher.__init__(self)
         self.creader = creader
         self.condition = condition
+        # A function that says whether a document number is deleted (the
+        # column still has a row for a deleted document), or None
+        self.is_deleted = is_deleted
         self._i = 0
         self._find_next()
 
     def _find_next(self):
         condition = self.condition
         creader = self.creader
+        is_deleted = self.is_deleted
 
-        while self._i < len(creader) and not condition(creader[self._i]):
+        while self._i < len(creader) and (
+            (is_deleted is not None and is_deleted(self._i))
+            or not condition(creader[self._i])
+        ):
             self._i += 1
 
     def is_active(self):
@@ -104,7 +113,10 @@ class ColumnMatcher(ConstantScoreMatcher):
 
     def all_ids(self):
         condition = self.condition
+        is_deleted = self.is_deleted
         for docnum, v in enumerate(self.creader):
+            if is_deleted is not None and is_deleted(docnum):
+                continue
             if condition(v):
                 yield docnum
 
